@@ -48,6 +48,7 @@ def run(ctx):
         rule_enum(ctx, M)
         rule_take(ctx, M)
         rule_collect(ctx, M)
+        c13.rule_group_container(ctx, M, "C15.COLLECT", ("VecConsumer", "ResultVecConsumer"))
         with ctx.renamed({"C14.RESVEC": "C15.COLLECT"}):
             c14.rule_resvec(ctx, M)
         rule_map(ctx, M)
